@@ -116,6 +116,79 @@ class C12(TalCheck):
                 ch.pick([None, {}])))
         return plans
 
+    # -- errors that cross a nested render() call made by user code ----------
+    OUTER = ('<html>\n  <div class="w" tal:content="structure inner()">x'
+             '</div>\n</html>')
+
+    def _run_plans(self, case, tmpl, src, occ, template, log) -> dict:
+        res = super()._run_plans(case, tmpl, src, occ, template, log)
+        if not res["violations"]:
+            v = self.nested_render(case, tmpl, template, log, res)
+            if v is not None:
+                res["violations"].append(v)
+            res["digest"] = log.digest()
+        return res
+
+    def nested_render(self, case, tmpl, template, log, res):
+        """A template whose expression calls a helper that renders *this*
+        template (a widget, a portlet).  The inner failure must come out of
+        the outer render() with its class, and with the inner records
+        followed by the outer call site - also when the helper looked at
+        the message on the way (logged it and re-raised)."""
+        outer = self.zt.PageTemplate(self.OUTER)
+        line2 = self.OUTER.split("\n")[1]
+        site = ("inner()", "<string>", 2, line2.index("inner()"))
+        done = 0
+        for plan, hcfg in self.make_plans(case, tmpl, template):
+            if done >= 3:
+                break
+            if len(plan) != 1 or plan[0]["do"][0] != "raise" or \
+                    plan[0]["do"][1] in NONEXC_NAMES + ["RecursionError"]:
+                continue
+            r0 = run_real(template, tmpl, plan, hcfg)
+            if r0["raise"] is None or \
+                    not isinstance(r0["raise"][1], Exception):
+                continue
+            try:
+                want = parse_records(str(r0["raise"][1])) + [site]
+            except Exception:       # noqa: BLE001 - judged by the oracle
+                continue
+            cls = type(r0["raised"][-1][2]) if r0["raised"] else None
+            done += 1
+            for peek in (False, True):
+                def inner(peek=peek):
+                    r1 = run_real(template, tmpl, plan, hcfg)
+                    if r1["raise"] is None:
+                        return r1["out"]
+                    if peek:
+                        str(r1["raise"][1])     # logged on the way out
+                    raise r1["raise"][1]
+                try:
+                    outer.render(inner=inner)
+                    got, e = None, None
+                except Exception as e_:         # noqa: BLE001
+                    e = e_
+                    try:
+                        got = parse_records(str(e))
+                    except Exception as e2:     # noqa: BLE001
+                        got = "str() raised %s" % type(e2).__name__
+                res["stats"]["plans"] += 1
+                log.add("nested", peek, got == want)
+                if got != want or (cls is not None and
+                                   not isinstance(e, cls)):
+                    return {
+                        "kind": "nested-render", "sig": "nested-render",
+                        "detail": f"the failure of plan {plan} inside a "
+                                  f"render() called from an expression of "
+                                  f"another template"
+                                  f"{' (message read on the way out)' if peek else ''}"
+                                  f" came out as {type(e).__name__} with "
+                                  f"records {str(got)[:500]}; expected the "
+                                  f"inner records followed by the call "
+                                  f"site: {str(want)[:500]}",
+                        "plan_index": 0, "plan": plan, "handler": hcfg}
+        return None
+
     def is_nontrivial(self, plan, r, m) -> bool:
         return r["raise"] is not None
 
